@@ -559,7 +559,7 @@ func checkSolveBlock(c *Ctx, s *ssa.Function) {
 	setBindCtx(s)
 	asm := callsIn(s, pkgMiner+".assembleFullBlock")
 	var pocHash, sign *ssa.Call
-	allInstrs(s, func(in ssa.Instruction) {
+	allInstrsNew(s, func(in ssa.Instruction) { // hashing and signing may sit in a helper the reference tree does not have
 		if cl, ok := in.(*ssa.Call); ok {
 			if callName(cl) == "PoCHash" {
 				pocHash = cl
@@ -622,13 +622,40 @@ func checkSolveBlock(c *Ctx, s *ssa.Function) {
 	{
 		key := "solveBlock:mined-height-not-solved-again"
 		var tests []boolTest
-		allInstrs(s, func(in ssa.Instruction) {
+		allInstrsNew(s, func(in ssa.Instruction) {
 			if lk, ok := in.(*ssa.Lookup); ok && lk.CommaOk {
 				if _, f, _, ok := fieldOfValue(lk.X); ok && f == "minedHeight" {
 					if refs := lk.Referrers(); refs != nil {
 						for _, r := range *refs {
-							if ex, ok := r.(*ssa.Extract); ok && ex.Index == 1 {
+							ex, ok := r.(*ssa.Extract)
+							if !ok || ex.Index != 1 {
+								continue
+							}
+							if lk.Parent() == s {
 								tests = append(tests, boolTestsOf(s, ex)...)
+								continue
+							}
+							// the membership test sits in a boolean helper (`hasMined`) that answers with the
+							// lookup's ok: the tests of the helper's result in solveBlock are the tests
+							h := lk.Parent()
+							faithful := h.Signature.Results().Len() == 1 && len(returnsOf(h)) > 0
+							for _, ret := range returnsOf(h) {
+								same := false
+								valueOrigins(h, ret.Results[0], func(rv ssa.Value) {
+									if rv == ssa.Value(ex) {
+										same = true
+									}
+								})
+								if !same {
+									faithful = false
+								}
+							}
+							if faithful {
+								for _, cs := range sitesOf(h) {
+									if cl, isC := cs.(*ssa.Call); isC && cl.Parent() == s {
+										tests = append(tests, boolTestsOf(s, cl)...)
+									}
+								}
 							}
 						}
 					}
@@ -698,12 +725,35 @@ func checkSubmit(c *Ctx, sb *ssa.Function) {
 	{
 		key := "submitBlock:not-before-timestamp"
 		var tests []boolTest
+		waitedInHelper := false
 		for _, cl := range callsIn(sb, "(time.Time).After") {
 			if backSlice(cl.Call.Args[0]).hasCallTo("time.Now") && backSlice(cl.Call.Args[1]).hasField("github.com/massnetorg/mass-core/wire.BlockHeader", "Timestamp") && backSlice(cl.Call.Args[1]).hasParam(sb, "block") {
+				if h := cl.Parent(); h != sb && h.Parent() == nil && gNewFuncs[h] {
+					// the wait loop sits in a helper the reference tree does not have: the helper returns only
+					// behind After() == true, and ProcessBlock is reached only through the helper's call
+					ht := boolTestsOf(h, cl)
+					var rets []ssa.Instruction
+					for _, r := range returnsOf(h) {
+						rets = append(rets, r)
+					}
+					okH, _ := unreachableWhenCut(h, boolEdgeCut(ht, true), rets)
+					for _, cs := range sitesOf(h) {
+						site, isC := cs.(*ssa.Call)
+						if !isC || site.Parent() != sb || !okH || len(ht) == 0 {
+							continue
+						}
+						if !reach(sb, nil, nil, func(in ssa.Instruction) bool { return in == ssa.Instruction(site) })(pb) {
+							waitedInHelper = true
+						}
+					}
+					continue
+				}
 				tests = append(tests, boolTestsOf(sb, cl)...)
 			}
 		}
-		if ok, _ := unreachableWhenCut(sb, boolEdgeCut(tests, true), []ssa.Instruction{pb}); len(tests) > 0 && ok {
+		if waitedInHelper {
+			c.OK("C08-SUBMIT", key, c.Pos(pb.Pos()), "ProcessBlock only after the wait helper returned, which it does only behind time.Now().After(block header timestamp)")
+		} else if ok, _ := unreachableWhenCut(sb, boolEdgeCut(tests, true), []ssa.Instruction{pb}); len(tests) > 0 && ok {
 			c.OK("C08-SUBMIT", key, c.Pos(pb.Pos()), "ProcessBlock only after time.Now().After(block header timestamp)")
 		} else {
 			c.Bad("C08-SUBMIT", key, c.Pos(pb.Pos()), "the block can be submitted before its timestamp")
